@@ -13,6 +13,7 @@ import contextvars
 import json
 import queue
 import random
+import re
 import threading
 import time
 from asyncio import CancelledError
@@ -31,6 +32,14 @@ GATE_TIMEOUT = 8.0     # a thread function never waits longer than this for its 
 DEFAULT_TOTAL = 40     # size of the default thread limiter
 
 _cvar: contextvars.ContextVar = contextvars.ContextVar("c14_var", default=-1)
+
+
+FAILED: list = []      # runs with a monitor hit / hang (generation stops early once there are plenty)
+FAIL_FAST = 10
+
+
+def plenty() -> bool:
+    return len(FAILED) >= FAIL_FAST
 
 
 class MyErr(Exception):
@@ -78,6 +87,8 @@ class Run:
         self.script = script
         self.chooser = chooser
         self.racy = racy              # monitor-only scenario (not compared with the model)
+        self.stuck: list[int] = []    # callers that never finished although every function was told to finish
+        self.strict = False           # replay: refuse ops that are not enabled (used while shrinking)
         self.finish_all = True        # after a replayed script, finish every pending call through further ops
         self.enabled_at_end = []
         self.ops: list[int] = []
@@ -344,6 +355,8 @@ class Run:
     async def do(self, code, a, b, d):
         import anyio
 
+        if self.strict and (code, a, b) not in {(x[0], x[1], x[2]) for x in self.enabled()}:
+            raise Hang(f"op {(OPN.get(code), a, b)} is not enabled here")
         rc, rv = 5, 0
         if code == 0:
             self.shields.setdefault(a, []).insert(0, bool(b))
@@ -496,7 +509,11 @@ class Run:
                     t.cancel()
             pend = [t for t in self.task.values() if not t.done()]
             if pend:
-                await asyncio.wait(pend, timeout=2)
+                await asyncio.wait(pend, timeout=0.3)
+                self.stuck = sorted(c for c, t in self.task.items() if not t.done())
+                for t in pend:
+                    t.cancel()
+                await asyncio.wait(pend, timeout=1)
         if self.hang is None:
             self.final_monitors()
 
@@ -514,9 +531,9 @@ class Run:
 
     def final_monitors(self):
         st = self.lim.statistics()
-        undone = [c for c, t in self.task.items() if not t.done()]
-        if undone:
-            self.mon.append(f"callers {undone} never finished")
+        if self.stuck:
+            self.mon.append(f"callers {self.stuck} never finished although every function returned "
+                            f"(limiter: {st.borrowed_tokens} borrowed, {st.tasks_waiting} waiting)")
         if st.borrowed_tokens != 0 or st.tasks_waiting != 0:
             self.mon.append(f"after every call ended the limiter has borrowed_tokens={st.borrowed_tokens}, "
                             f"tasks_waiting={st.tasks_waiting}")
@@ -529,8 +546,11 @@ class Run:
                 kind, val = self.finish_sent[c]
                 want = {1: (3, val), 2: (4, 0)}.get(kind, (0, val))
                 if k == 2:
-                    if not (self.abandon[c] and c in self.cancel_before_finish):
-                        self.mon.append(f"call {c} (abandon={self.abandon[c]}) ended cancelled although its function "
+                    if not self.abandon[c]:
+                        self.mon.append(f"call {c} (abandon_on_cancel=False) ended cancelled: the result of its function "
+                                        f"({KINDS[kind]} {val}) was dropped")
+                    elif c not in self.cancel_before_finish:
+                        self.mon.append(f"call {c} (abandon_on_cancel=True) ended cancelled although its function "
                                         f"finished with {KINDS[kind]} {val} and no cancellation preceded the finish")
                     else:
                         self.flags.add("result_dropped_abandoned")
@@ -574,6 +594,8 @@ class Run:
         finally:
             A.WorkerThread.MAX_IDLE_TIME = old
         self.outs += self.final_obs()
+        if self.mon or self.hang or (self.leak and self.racy is None):
+            FAILED.append(self)
         return self
 
     def model_case(self):
@@ -700,7 +722,7 @@ def exhaustive_runs(total: int, ncalls: int, depth: int, uv: bool, budget: int):
         return True
 
     def rec(prefix):
-        if count[0] >= budget:
+        if count[0] >= budget or plenty():
             return
         count[0] += 1
         r = Run(total, False, uv, ncalls, script=list(prefix))
@@ -770,11 +792,38 @@ def racy_early_cancel(n: int, abandon: bool):
 # the check
 # ---------------------------------------------------------------------------------------------------
 
+def shrink(r: Run, msg: str, budget: int = 40) -> Run:
+    """drop script ops while a monitor message of the same kind still appears"""
+    if r.racy is not None or r.hang:
+        return r
+    key = re.sub(r"\d+", "#", msg)[:40]
+    best = r
+    ops = list(r.ops)
+    i = len(ops) - 4
+    while i >= 0 and budget > 0:
+        cand = ops[:i] + ops[i + 4:]
+        budget -= 1
+        try:
+            rr = Run(r.total, r.prune, r.uv, r.ncalls, script=cand)
+            rr.strict = True
+            rr.execute()
+            FAILED.pop() if FAILED and FAILED[-1] is rr else None
+            bad = cand != rr.ops[:len(cand)]
+        except Exception:  # noqa: BLE001  (a script that is no longer executable)
+            bad = True
+        if not bad and any(re.sub(r"\d+", "#", m)[:40] == key for m in rr.mon):
+            ops = cand
+            best = rr
+        i -= 4
+    return best
+
+
 def clean(outs):
     return [x if isinstance(x, int) and not isinstance(x, bool) else 9999 for x in outs]
 
 
 def check(tier: str) -> int:
+    FAILED.clear()
     rep = core.Report("C14", tier)
     rep.assumptions = core.TRUSTED_BASE_COMMON + [
         "PARTIAL (boundary property): the OS thread running the user's function is an oracle - its interactions with the loop "
@@ -808,11 +857,15 @@ def check(tier: str) -> int:
     if tier == "quick":
         plans = plans[rng.randrange(3)::3]
     for i, (total, p) in enumerate(plans):
+        if plenty():
+            break
         runs.append(Run(total, False, i % 8 == 0, 2, chooser=plan_chooser(p)).execute())
     n_directed = len(plans)
     # random walks
     n_random = 600 if tier == "quick" else 14000
     for i in range(n_random):
+        if plenty():
+            break
         runs.append(random_run(rng, uv=(i % 6 == 0)))
     # exhaustive small scope by replay
     if tier == "quick":
@@ -823,7 +876,7 @@ def check(tier: str) -> int:
 
     # races: monitors only
     racy = []
-    for uv in (False, True):
+    for uv in ((False, True) if not plenty() else ()):
         racy.append(Run(2, False, uv, 0, racy=racy_early_cancel(12 if tier == "quick" else 60, False)).execute())
         racy.append(Run(2, False, uv, 0, racy=racy_early_cancel(25 if tier == "quick" else 150, True)).execute())
 
@@ -851,8 +904,16 @@ def check(tier: str) -> int:
     hangs = [r for r in runs + racy if r.hang]
     leaks_settled = [r for r in runs if r.leak]
     leaks_racy = [r for r in racy if r.leak]
-    for r, msg in hits[:6]:
-        rep.violation(msg, {"kind": "monitor", **r.replay(), "racy_scenario": r.racy is not None})
+    seen_kinds = set()
+    for r, msg in sorted(hits, key=lambda h: len(h[0].ops)):
+        kind = re.sub(r"\d+", "#", msg)[:40]
+        if kind in seen_kinds or len(seen_kinds) >= 4:
+            continue
+        seen_kinds.add(kind)
+        rs = shrink(r, msg)
+        m2 = next((m for m in rs.mon if re.sub(r"\d+", "#", m)[:40] == kind), msg)
+        rep.violation(m2, {"kind": "monitor", **rs.replay(), "racy_scenario": r.racy is not None,
+                           "all_messages": rs.mon[:6]})
     for r in hangs[:3]:
         rep.violation("step effect not observed within the timeout: " + r.hang,
                       {"kind": "hang", **r.replay(), "racy_scenario": r.racy is not None})
